@@ -554,19 +554,43 @@ def diff(a, b, path=''):
 
 # --------------------------------------------------------------------------- loader observables (shared by C01 / C12)
 
+OBS_UNAVAILABLE = set()          # "Class.field" of internal fields of /repo that the observation code could not read
+
+
+def field(obj, name, default=None):
+    """an INTERNAL field of an object of /repo (statement classes are not exported): a missing field must not crash the
+    harness -- the environment fingerprint reports the rename as a broken tie --, it yields `default` / a canonical marker
+    and is noted in OBS_UNAVAILABLE"""
+    try:
+        return getattr(obj, name)
+    except AttributeError:
+        OBS_UNAVAILABLE.add('%s.%s' % (type(obj).__name__, name))
+        if default is not None:
+            return default
+        from sexp import Sym
+        return Sym('unavailable:%s' % name)
+
+
+def _seq(v):
+    return list(v) if isinstance(v, (list, tuple)) else v
+
+
 def stmt_dump(s):
     """one parsed statement as the s-expression the Lean driver prints for it"""
     from sexp import Sym
     n = type(s).__name__
+    f = lambda name: field(s, name)
     if n == 'CreateClassStmt':
-        return [Sym('table'), s.kind, [[a, b] for a, b in s.attributes]]
+        attrs = f('attributes')
+        return [Sym('table'), f('kind'), [list(a) for a in attrs] if isinstance(attrs, (list, tuple)) else attrs]
     if n == 'CreateAssociationStmt':
-        return [Sym('rop'), s.rel_id, s.source_kind, s.source_cardinality, list(s.source_keys), s.source_phrase,
-                s.target_kind, s.target_cardinality, list(s.target_keys), s.target_phrase]
+        return [Sym('rop'), f('rel_id'), f('source_kind'), f('source_cardinality'), _seq(f('source_keys')), f('source_phrase'),
+                f('target_kind'), f('target_cardinality'), _seq(f('target_keys')), f('target_phrase')]
     if n == 'CreateUniqueStmt':
-        return [Sym('index'), s.kind, s.name, list(s.attributes)]
+        return [Sym('index'), f('kind'), f('name'), _seq(f('attributes'))]
     if n == 'CreateInstanceStmt':
-        return [Sym('insert'), s.kind, list(s.values), Sym('none') if s.names is None else list(s.names)]
+        names = field(s, 'names', Sym('unavailable:names')) if not hasattr(s, 'names') else s.names
+        return [Sym('insert'), f('kind'), _seq(f('values')), Sym('none') if names is None else _seq(names)]
     return [Sym('unknown-statement'), n]
 
 
